@@ -103,4 +103,82 @@ theorem betaNorm_normal : ∀ (fuel : Nat) (t t' : Term), Term.betaNorm fuel t =
             exact betaNormal_comb f' a' (betaNorm_normal fuel f f' hf) (betaNorm_normal fuel a a' ha)
               (fun x T b e => hna x T b e)
 
+
+/-- more recursion depth does not change the answer of `beta_norm` -/
+theorem betaNorm_succ : ∀ (fuel : Nat) (t t' : Term), Term.betaNorm fuel t = .ok t' →
+    Term.betaNorm (fuel + 1) t = .ok t'
+  | 0, _, _, h => by simp [Term.betaNorm] at h
+  | fuel + 1, t, t', h => by
+    cases t with
+    | svar n T => simpa [Term.betaNorm] using h
+    | var n T => simpa [Term.betaNorm] using h
+    | const n T => simpa [Term.betaNorm] using h
+    | bound i => simpa [Term.betaNorm] using h
+    | abs x T b =>
+      simp only [Term.betaNorm, bind, Except.bind] at h
+      cases hb : Term.betaNorm fuel b with
+      | error e => simp [hb] at h
+      | ok b' =>
+        rw [hb] at h
+        have := betaNorm_succ fuel b b' hb
+        rw [Term.betaNorm]
+        simp only [bind, Except.bind, this]
+        exact h
+    | comb f a =>
+      simp only [Term.betaNorm, bind, Except.bind] at h
+      cases hf : Term.betaNorm fuel f with
+      | error e => simp [hf] at h
+      | ok f' =>
+        cases ha : Term.betaNorm fuel a with
+        | error e => simp [hf, ha] at h
+        | ok a' =>
+          simp only [hf, ha] at h
+          have h1 := betaNorm_succ fuel f f' hf
+          have h2 := betaNorm_succ fuel a a' ha
+          rw [Term.betaNorm]
+          simp only [bind, Except.bind, h1, h2]
+          split at h
+          · rename_i x T b
+            simp only [Term.betaConv, Term.substBound] at h ⊢
+            exact betaNorm_succ fuel _ t' h
+          · rename_i hna
+            cases f' with
+            | abs x T b => exact absurd rfl (hna x T b)
+            | _ => exact h
+
+theorem betaNorm_mono (fuel fuel' : Nat) (t t' : Term) (h : Term.betaNorm fuel t = .ok t')
+    (hle : fuel ≤ fuel') : Term.betaNorm fuel' t = .ok t' := by
+  induction hle with
+  | refl => exact h
+  | step _ ih => exact betaNorm_succ _ t t' ih
+
+/-- the only failure of `beta_norm` is exhaustion of the recursion depth (no TermException: the
+`beta_conv` it performs is always applied to a redex) -/
+theorem betaNorm_error : ∀ (fuel : Nat) (t : Term) (e : TErr), Term.betaNorm fuel t = .error e → e = .fuel
+  | 0, _, e, h => by simp only [Term.betaNorm] at h; cases h; rfl
+  | fuel + 1, t, e, h => by
+    cases t with
+    | svar n T => simp [Term.betaNorm] at h
+    | var n T => simp [Term.betaNorm] at h
+    | const n T => simp [Term.betaNorm] at h
+    | bound i => simp [Term.betaNorm] at h
+    | abs x T b =>
+      simp only [Term.betaNorm, bind, Except.bind] at h
+      cases hb : Term.betaNorm fuel b with
+      | error e' => rw [hb] at h; cases h; exact betaNorm_error fuel b e hb
+      | ok b' => rw [hb] at h; cases h
+    | comb f a =>
+      simp only [Term.betaNorm, bind, Except.bind] at h
+      cases hf : Term.betaNorm fuel f with
+      | error e' => rw [hf] at h; cases h; exact betaNorm_error fuel f e hf
+      | ok f' =>
+        cases ha : Term.betaNorm fuel a with
+        | error e' => simp only [hf, ha] at h; cases h; exact betaNorm_error fuel a e ha
+        | ok a' =>
+          simp only [hf, ha] at h
+          split at h
+          · simp only [Term.betaConv, Term.substBound] at h
+            exact betaNorm_error fuel _ e h
+          · cases h
+
 end Holpy.C03
